@@ -18,6 +18,20 @@ Theorem C17_stmt_rows_are_the_forest : forall stmts p cd tx,
 Proof. exact current_stmt_rows_are_the_forest. Qed.
 Print Assumptions C17_stmt_rows_are_the_forest.
 
+Theorem C17_stmt_paths_unique_and_tree : forall stmts,
+  NoDup (row_paths (ep_items child_index_mode alt_index_mode stmts)) /\
+  (forall p cd tx, In (IRow p cd tx) (ep_items child_index_mode alt_index_mode stmts) <-> forest_at stmts p cd tx).
+Proof. exact current_stmt_paths_unique_and_tree. Qed.
+Print Assumptions C17_stmt_paths_unique_and_tree.
+
+(* lossless: the Stmt rows determine the visible statement at every position *)
+Theorem C17_stmt_rows_determine_forest : forall s1 s2,
+  (forall p cd tx, In (IRow p cd tx) (ep_items child_index_mode alt_index_mode s1) <->
+                   In (IRow p cd tx) (ep_items child_index_mode alt_index_mode s2)) ->
+  forall p cd tx, forest_at s1 p cd tx <-> forest_at s2 p cd tx.
+Proof. exact current_stmt_rows_determine_forest. Qed.
+Print Assumptions C17_stmt_rows_determine_forest.
+
 Theorem C17_position_determines_statement : forall stmts p c1 t1 c2 t2,
   forest_at stmts p c1 t1 -> forest_at stmts p c2 t2 -> c1 = c2 /\ t1 = t2.
 Proof. exact forest_at_fun. Qed.
